@@ -79,6 +79,18 @@ def _replay_blast(kind):
                     return dict(where, what="zero-forcing filter: W H != I", max_abs_error=float(np.abs(W @ H - np.eye(Nt)).max()))
                 if (not (abs(np.sum(np.abs(enc) ** 2) * Nt - np.sum(np.abs(x) ** 2)) <= 1e-9 * np.sum(np.abs(x) ** 2))):
                     return dict(where, what="encoded energy * Nt != data energy", encoded=float(np.sum(np.abs(enc) ** 2)), data=float(np.sum(np.abs(x) ** 2)))
+            # a full-column-rank but ill-conditioned channel (condition number 1e8)
+            rr = np.random.RandomState(99)
+            H = _native_H(kind, rr)
+            if H.shape[1] >= 2:
+                U, _, Vh = np.linalg.svd(H, full_matrices=False)
+                H = U @ np.diag(np.geomspace(1.0, 1e-8, H.shape[1])) @ Vh
+                x = rr.randn(2 * H.shape[1]) + 1j * rr.randn(2 * H.shape[1])
+                b = mimo.Blast(H)
+                dec = b.decode(H @ b.encode(x))
+                if (not (np.abs(dec - x).max() <= 1e-4)):
+                    return {"confirmed": True, "channel": kind, "what": "decode(H encode(x)) != x for a full-rank channel with condition number 1e8",
+                            "singular values": np.linalg.svd(H, compute_uv=False).tolist(), "max_abs_error": float(np.abs(dec - x).max())}
             return {"confirmed": False, "note": "real Blast round-trips generic data"}
         except Exception as e:
             return {"confirmed": False, "error": "replay crashed: %r" % (e,)}
@@ -408,6 +420,9 @@ def _replay_svd_gmd(cls_name, kind):
                 H = rr.randn(nr, nt) + (1j * rr.randn(nr, nt) if kind[0] == "c" else 0)
                 if seed == 3:          # exactly repeated singular values
                     Q, _ = np.linalg.qr(rr.randn(nr, nr)); H = Q[:, :nt] * 1.5
+                if seed == 2 and nt >= 2:          # full rank, condition number 1e8
+                    U_, _, Vh_ = np.linalg.svd(H, full_matrices=False)
+                    H = U_ @ np.diag(np.geomspace(1.0, 1e-8, nt)) @ Vh_
                 x = rr.randn(2 * nt) + 1j * rr.randn(2 * nt)
                 where = {"confirmed": True, "scheme": cls_name, "channel": H.tolist() if kind[0] != "c" else [[str(v) for v in r] for r in H]}
                 try:
@@ -418,7 +433,7 @@ def _replay_svd_gmd(cls_name, kind):
                     return dict(where, what="raised %r" % (e,))
                 if np.shape(enc) != (nt, 2):
                     return dict(where, encoded_shape=list(np.shape(enc)))
-                if (not (np.shape(dec) == x.shape and np.abs(dec - x).max() <= 1e-8)):
+                if (not (np.shape(dec) == x.shape and np.abs(dec - x).max() <= (1e-8 if seed != 2 else 1e-4))):
                     return dict(where, what="decode(H encode(x)) != x", max_abs_error=float(np.abs(np.ravel(dec)[:x.size] - x).max()))
                 if (not (abs(np.sum(np.abs(enc) ** 2) * nt - np.sum(np.abs(x) ** 2)) <= 1e-9 * np.sum(np.abs(x) ** 2))):
                     return dict(where, what="encoded energy * Nt != data energy")
@@ -495,7 +510,7 @@ def ob_gmd_mimo(H, family):
 # ------------------------------------------------------------------ bounded native
 @obligation("native/all_schemes", kind="bounded", timeout=900,
             desc="complex128: every scheme (Blast, MRC, MRT, SVD, GMD, Alamouti) x antenna configurations Nr >= Nt up to 6 (rectangular incl.) x "
-                 "random channels with condition number <= 1e4 and channels with singular values in geometric progression x data blocks: "
+                 "random channels, channels with singular values in geometric progression and ill-conditioned full-rank channels (condition number 1e6, 1e8, 1e10; tolerances scaled) x data blocks: "
                  "noise-free decode(H encode(x)) == x (1e-8), energy per channel use == mean symbol energy, ZF/MMSE equations, MMSE -> ZF as "
                  "noise -> 0, noise-variance histories on one object")
 def ob_native():
@@ -505,7 +520,7 @@ def ob_native():
     def gen():
         for i in range(150 if quick() else 2000):
             yield {"seed": int(r.randint(1 << 30)), "scheme": ["Blast", "MRC", "MRT", "SVDMimo", "GMDMimo", "Alamouti"][i % 6],
-                   "geo": bool((i // 6) % 3 == 0)}
+                   "geo": bool((i // 6) % 3 == 0), "kappa": [None, None, 1e6, None, 1e8, 1e10][(i // 12) % 6]}
 
     def cm(rr, a, b):
         return rr.randn(a, b) + 1j * rr.randn(a, b)
@@ -526,8 +541,14 @@ def ob_native():
         if case["geo"] and sch in ("SVDMimo", "GMDMimo", "Blast") and Nt >= 2:
             sv = 2.0 ** np.arange(Nt, 0, -1)
             H = np.linalg.qr(cm(rr, Nr, Nr))[0][:, :Nt] @ np.diag(sv) @ np.linalg.qr(cm(rr, Nt, Nt))[0]
-        if (not (np.linalg.cond(H) <= 1e4)):
+        if case.get("kappa") and sch in ("SVDMimo", "GMDMimo", "Blast") and Nt >= 2:
+            # full column rank but ill conditioned (e.g. one strongly attenuated path): still "any full-rank channel"
+            sv = np.geomspace(1.0, 1.0 / case["kappa"], Nt)
+            H = np.linalg.qr(cm(rr, Nr, Nr))[0][:, :Nt] @ np.diag(sv) @ np.linalg.qr(cm(rr, Nt, Nt))[0]
+        kap = float(np.linalg.cond(H))
+        if (not (kap <= 1e11)):
             return None
+        slack = max(1.0, kap / 1e4)          # attainable accuracy in binary64 degrades with the condition number
         o = getattr(mimo, sch)(H)
         layers = o.getNumberOfLayers() if sch != "MRT" else 1
         n = layers * int(rr.randint(1, 5))
@@ -542,8 +563,8 @@ def ob_native():
         dec = o.decode(rxs)
         if fr.changed():
             return {"scheme": sch, "frame": fr.changed()}
-        if dec.shape != x.shape or (not (np.abs(dec - x).max() <= 1e-8 * max(1, np.abs(x).max()))):
-            return {"scheme": sch, "Nr": Nr, "Nt": Nt, "max error": float(np.abs(dec - x).max()) if dec.shape == x.shape else "shape"}
+        if dec.shape != x.shape or (not (np.abs(dec - x).max() <= 1e-8 * slack * max(1, np.abs(x).max()))):
+            return {"scheme": sch, "Nr": Nr, "Nt": Nt, "condition number": kap, "max error": float(np.abs(dec - x).max()) if dec.shape == x.shape else "shape"}
         uses = enc.shape[1] if enc.ndim == 2 else 1
         per_use = np.sum(np.abs(enc) ** 2) / uses
         want = np.mean(np.abs(x) ** 2) * (1 if sch in ("MRT", "MRC") else 1)
@@ -555,8 +576,8 @@ def ob_native():
             return {"scheme": sch, "energy per channel use": float(per_use), "mean symbol energy": float(want)}
         if sch in ("Blast", "MRC", "GMDMimo"):
             W = mimo.MimoBase._calcZeroForceFilter(H)
-            if (not (np.abs(W @ H - np.eye(Nt)).max() <= 1e-8)):
-                return {"ZF equation": True}
+            if (not (np.abs(W @ H - np.eye(Nt)).max() <= 1e-8 * slack)):
+                return {"ZF equation W H == I violated by": float(np.abs(W @ H - np.eye(Nt)).max()), "condition number": kap}
             s2 = float(rr.rand() + 0.01)
             Wm = mimo.MimoBase._calcMMSEFilter(H, s2)
             if (not (np.abs((H.conj().T @ H + s2 * np.eye(Nt)) @ Wm - H.conj().T).max() <= 1e-8 * max(1, np.abs(H).max() ** 2))):
@@ -581,20 +602,20 @@ def ob_native():
                 if (not (np.abs(np.asarray(di) - np.asarray(df)).max() <= 1e-9 * max(1.0, np.abs(df).max()))):
                     return {"scheme": sch, "decode with an MMSE filter depends on the dtype of the channel array": float(np.abs(np.asarray(di) - np.asarray(df)).max())}
             Wt = mimo.MimoBase._calcMMSEFilter(H, 1e-12)
-            if (not (np.abs(Wt - W).max() <= 1e-4 * max(1, np.abs(W).max()))):
+            if kap <= 1e4 and (not (np.abs(Wt - W).max() <= 1e-4 * max(1, np.abs(W).max()))):
                 return {"MMSE does not tend to ZF": float(np.abs(Wt - W).max())}
             # histories on one object
             o.set_noise_var(0.5)
             o.decode(H @ enc)
             o.set_noise_var(None)
             d2 = o.decode(H @ enc)
-            if (not (np.abs(d2 - x).max() <= 1e-8 * max(1, np.abs(x).max()))):
+            if (not (np.abs(d2 - x).max() <= 1e-8 * slack * max(1, np.abs(x).max()))):
                 return {"scheme": sch, "after set_noise_var(0.5), decode, set_noise_var(None)": float(np.abs(d2 - x).max())}
             o.set_noise_var(0.3)
             o.decode(H @ enc)
             o.set_noise_var(0.0)
             d3 = o.decode(H @ enc)
-            if (not (np.abs(d3 - x).max() <= 1e-8 * max(1, np.abs(x).max()))):
+            if (not (np.abs(d3 - x).max() <= 1e-8 * slack * max(1, np.abs(x).max()))):
                 return {"scheme": sch, "after set_noise_var(0.0)": float(np.abs(d3 - x).max())}
         return None
     return bounded(gen(), check)
